@@ -8,7 +8,7 @@ from __future__ import annotations
 import itertools
 
 from .. import gen
-from ..core import CaseTimeout, case_deadline, rng_for, short_tb
+from ..core import CaseTimeout, case_deadline, rng_for, short_tb, note_exc
 
 PROP = "C15"
 LEVEL = "exploration"
@@ -49,7 +49,7 @@ def run_case(case, res):
     # kinds are two-character strings built at run time, so that the objects stored in the
     # tree and the ones used in queries are equal but not identical
     pre = "k"
-    mk = lambda ch: pre + ch
+    mk = lambda ch: "" if ch == "c" else pre + ch  # the empty string is a legal kind too
     if case["lab"] == "uniq":
         nodes = gen.build(t, f, lambda i: f"n{i}", kind=lambda i: mk(kinds[i]))
     else:
@@ -90,7 +90,7 @@ def run_case(case, res):
                 j = next(k for k, s in enumerate(same) if s is x)
                 K = list(x.children)
                 for kch in KINDS + "q":
-                    kind = "".join(["k", kch])
+                    kind = "" if kch == "c" else "".join(["k", kch])
                     kk = [c for c in K if c.kind == kind]
                     chk(f"get_children({kind})", attempt(lambda: x.get_children(kind)), kk, x)
                     chk(f"first_child({kind})", attempt(lambda: x.first_child(kind)), kk[0] if kk else None, x)
@@ -118,6 +118,23 @@ def run_case(case, res):
                 chk("is_last_sibling()", attempt(lambda: x.is_last_sibling()), j == len(same) - 1, x)
                 chk("is_first_sibling(any_kind)", attempt(lambda: x.is_first_sibling(any_kind=True)), i == 0, x)
                 chk("is_last_sibling(any_kind)", attempt(lambda: x.is_last_sibling(any_kind=True)), i == len(sibs) - 1, x)
+            # lists handed out for nodes without (matching) children belong to the caller: using one as an
+            # accumulator must not influence what other nodes report
+            leaves = [x for x in nodes if not list(x.children)]
+            if len(leaves) >= 2:
+                sentinel = object()
+                for q in ("ka", ANY_KIND):
+                    lst = leaves[0].get_children(q)
+                    if isinstance(lst, list) and not lst:
+                        lst.append(sentinel)
+                        other = leaves[1].get_children(q)
+                        if other:
+                            bad.append(f"get_children({q!r}) of a leaf reports {other!r} after a list returned for another leaf was extended")
+                        if leaves[1].has_children(q) or leaves[0].has_children(q):
+                            bad.append(f"has_children({q!r}) of a leaf is true after a returned empty list was extended")
+                        if list(leaves[0].children) or list(leaves[1].children):
+                            bad.append("children of a leaf changed after a returned empty list was extended")
+                        res.count("leaf_list_mutations")
             top = list(t.children)
             allnodes = []
 
@@ -128,7 +145,7 @@ def run_case(case, res):
 
             rec(top)
             for kch in KINDS + "q":
-                kind = "".join(["k", kch])
+                kind = "" if kch == "c" else "".join(["k", kch])
                 kk = [c for c in top if c.kind == kind]
                 chk(f"tree.first_child({kind})", attempt(lambda: t.first_child(kind)), kk[0] if kk else None, None)
                 chk(f"tree.last_child({kind})", attempt(lambda: t.last_child(kind)), kk[-1] if kk else None, None)
@@ -140,7 +157,7 @@ def run_case(case, res):
         res.inconc("case watchdog fired")
         return
     except Exception:
-        bad.append("harness/exception: " + short_tb())
+        note_exc(res, bad, "exception escaped from the library: ")
     if bad:
         res.violation(case, "; ".join(bad[:3]), n_bad=len(bad))
 
